@@ -23,6 +23,21 @@ fn main() {
             }
         }
     }
+    if args[1] == "debug-solve" {
+        // cv debug-solve <replay-file>: solve the case's (ps, st) verbosely and dump what the checks look at
+        let txt = std::fs::read_to_string(&args[2]).expect("file");
+        let v: serde_json::Value = serde_json::from_str(&txt).expect("json");
+        let ps: cvlib::gen::ProblemSpec = serde_json::from_value(v["case"]["ps"].clone()).expect("ps");
+        let mut st: cvlib::gen::SettingsSpec = serde_json::from_value(v["case"]["st"].clone()).expect("st");
+        st.verbose = true;
+        let out = cvlib::solve::run_solver(&ps, &st);
+        println!("status {:?} iters {} obj {:e} {:e} r_prim {:e} r_dual {:e}", out.status, out.iterations, out.obj_val, out.obj_val_dual, out.r_prim, out.r_dual);
+        println!("x {:?}\ns {:?}\nz {:?}", out.x, out.s, out.z);
+        for r in &out.trace {
+            println!("trace iter {} phase {} tau {:e} kappa {:e} alpha {:e} mu {:e} dual {}", r.iter, r.phase, r.tau, r.kappa, r.alpha, r.mu, r.dual_scaling);
+        }
+        std::process::exit(0);
+    }
     let id = args[1].clone();
     let mut tier = std::env::var("VERIF_TIER").unwrap_or_else(|_| "quick".into());
     let mut seed: u64 = std::env::var("VERIF_SEED").ok().and_then(|s| s.parse::<i64>().ok()).map(|v| v as u64).unwrap_or(0);
